@@ -94,6 +94,8 @@ type Ctx struct {
 
 	evals   atomic.Int64
 	inconcl atomic.Int64
+	nviol   atomic.Int64
+	skipped atomic.Int64
 
 	shards [nShards]struct {
 		mu sync.Mutex
@@ -114,6 +116,9 @@ type Ctx struct {
 	Level       string
 	Assumptions []string
 	start       time.Time
+
+	// KnownSigs are the signatures of open known findings (they do not count towards saturation).
+	KnownSigs map[string]bool
 
 	// Journal, when non-nil, receives one line per case before it is executed (crash attribution).
 	Journal *os.File
@@ -173,7 +178,15 @@ func (c *Ctx) WantSample(class string) bool {
 }
 
 // Violate records a violation with its signature; at most 5 detailed witnesses per signature are kept.
+// Saturated reports that the run has already collected so many violations that executing the
+// remaining cases cannot change its verdict (it only matters on a tree that breaks the property:
+// hangs cost a watchdog period each).
+func (c *Ctx) Saturated() bool { return c.nviol.Load() >= 300 }
+
 func (c *Ctx) Violate(sig, msg string, cs any, log []string) {
+	if !c.KnownSigs[sig] {
+		c.nviol.Add(1) // listed known findings never saturate a run
+	}
 	raw, _ := json.Marshal(cs)
 	c.mu.Lock()
 	c.violCount[sig]++
@@ -217,7 +230,7 @@ func (c *Ctx) Result() *Result {
 	return &Result{
 		Property: c.Prop, Part: c.Part, Tier: c.Tier, Seed: c.Seed,
 		Evaluations: c.evals.Load(), Distinct: distinct, Rule: c.Rule, Exhaustive: c.Exhaustive,
-		Counters: c.counters, Samples: c.samples, Violations: c.viols, ViolationCount: c.violCount,
+		Counters: c.withSkipped(), Samples: c.samples, Violations: c.viols, ViolationCount: c.violCount,
 		Inconclusive: c.inconcl.Load(), InconclusiveEx: c.inconEx, Broken: c.broken,
 		Assumptions: c.Assumptions, WallS: time.Since(c.start).Seconds(), Level: c.Level,
 	}
@@ -232,6 +245,10 @@ func RunCases[C any](ctx *Ctx, gen func(emit func(C)), exec func(ctx *Ctx, c C))
 		go func() {
 			defer wg.Done()
 			for cs := range ch {
+				if ctx.Saturated() {
+					ctx.skipped.Add(1)
+					continue // the verdict of this run is already "violated": drain without executing
+				}
 				runOne(ctx, cs, exec)
 			}
 		}()
@@ -341,4 +358,11 @@ func Permutations(n int, f func(p []int)) {
 		}
 	}
 	rec(0)
+}
+
+func (c *Ctx) withSkipped() map[string]int64 {
+	if n := c.skipped.Load(); n > 0 {
+		c.counters["cases_skipped_after_saturation"] = n
+	}
+	return c.counters
 }
